@@ -904,6 +904,76 @@ func c19CaseSensitivity(cases *verifx.Cases) {
 
 // ---- (e) arbitrary bytes
 
+// c19StructuredDecode: JSON documents built from the member names of the protocol's own types and a
+// small alphabet of values (null, empty and nested containers, wrong-typed scalars), one or two
+// members per object, decoded into every result/params/content type that has decoding code of its
+// own: whatever a peer sends, decoding returns a value or an error - it never panics.
+func c19StructuredDecode(cases *verifx.Cases) {
+	names := []string{"content", "structuredContent", "isError", "inputRequests", "inputResponses", "requestState", "resultType", "messages", "contents", "_meta",
+		"tools", "prompts", "resources", "resourceTemplates", "roots", "nextCursor", "completion", "values", "type", "text", "data", "resource", "uri", "toolUseId", "input", "method", "params", "result", "role", "model", "action", "ttlMs"}
+	values := []string{`null`, `{}`, `[]`, `""`, `0`, `true`, `"x"`, `[null]`, `[{}]`, `[[]]`, `{"k":null}`, `{"k":{}}`, `{"k":[]}`, `{"k":"v"}`, `{"k":{"method":null}}`, `{"k":{"method":"roots/list","params":null}}`, `{"k":{"method":"sampling/createMessage"}}`, `{"k":{"method":"x"}}`,
+		`[{"type":null}]`, `[{"type":"text"}]`, `[{"type":"tool_result","content":null}]`, `[{"type":"tool_result","content":[null]}]`, `[{"type":"resource","resource":null}]`, `[{"type":"nope"}]`, `{"type":"text","text":null}`, `{"type":"resource"}`}
+	targets := []func() any{
+		func() any { return new(CallToolResult) }, func() any { return new(GetPromptResult) }, func() any { return new(ReadResourceResult) },
+		func() any { return new(ListToolsResult) }, func() any { return new(ListPromptsResult) }, func() any { return new(ListResourcesResult) }, func() any { return new(ListResourceTemplatesResult) },
+		func() any { return new(CreateMessageResult) }, func() any { return new(CreateMessageWithToolsResult) }, func() any { return new(CreateMessageParams) }, func() any { return new(CreateMessageWithToolsParams) },
+		func() any { return new(CompleteResult) }, func() any { return new(ElicitResult) }, func() any { return new(ListRootsResult) }, func() any { return new(CallToolParams) }, func() any { return new(CallToolParamsRaw) },
+		func() any { return new(PromptMessage) }, func() any { return new(SamplingMessage) }, func() any { return new(SamplingMessageV2) }, func() any { return new(InputRequestMap) }, func() any { return new(InputResponseMap) },
+		func() any { return new(Tool) }, func() any { return new(ResourceContents) }, func() any { return new(ProgressNotificationParams) }, func() any { return new(DiscoverResult) },
+	}
+	try := func(doc string) {
+		idx, mine := cases.Next()
+		if !mine {
+			return
+		}
+		for _, mk := range targets {
+			v := mk()
+			bad := ""
+			func() {
+				defer func() {
+					if r := recover(); r != nil {
+						bad = fmt.Sprintf("decoding %s into %T panics: %v", doc, v, r)
+					}
+				}()
+				json.Unmarshal([]byte(doc), v)
+			}()
+			if bad != "" {
+				cases.Violate(idx, fmt.Sprintf("c19 decoder-panic %T", v), bad, 1)
+				return
+			}
+		}
+		func() {
+			defer func() {
+				if r := recover(); r != nil {
+					cases.Violate(idx, "c19 decoder-panic message", fmt.Sprintf("decoding a response with result %s panics: %v", doc, r), 1)
+				}
+			}()
+			jsonrpc2.DecodeMessage([]byte(`{"jsonrpc":"2.0","id":1,"result":` + doc + `}`))
+			cases.Record(idx, "no panic", len(targets)+1, func() string { return doc })
+		}()
+	}
+	n := 0
+	for _, a := range names {
+		for _, va := range values {
+			try(fmt.Sprintf(`{%q:%s}`, a, va))
+			n++
+		}
+	}
+	for _, a := range []string{"content", "inputRequests", "inputResponses", "messages", "contents", "resultType"} {
+		for _, va := range values {
+			for _, b := range []string{"resultType", "inputRequests", "structuredContent", "_meta"} {
+				for _, vb := range []string{`null`, `"input_required"`, `"complete"`, `{}`, `{"k":null}`} {
+					if a != b {
+						try(fmt.Sprintf(`{%q:%s,%q:%s}`, a, va, b, vb))
+						n++
+					}
+				}
+			}
+		}
+	}
+	_ = n
+}
+
 func c19Fuzz(env *verifx.Env, res *verifx.Result, maxLen int) {
 	cases := env.NewCases(res, "all-byte-strings-no-panic")
 	cases.NoMark = true
@@ -994,6 +1064,7 @@ func TestVerifC19(t *testing.T) {
 	c19CheckContents(cc)
 	c19WireRequired(cc)
 	c19CaseSensitivity(cc)
+	c19StructuredDecode(env.NewCases(res, "structured-documents-no-panic"))
 	c19Fuzz(env, res, env.Pick(5, 6))
 	_ = io.EOF
 	env.Finish(res)
